@@ -40,6 +40,7 @@ from .codec import MySeq, MyMap
 
 TRACE: t.List[t.Optional[t.List[t.Any]]] = [None]   # when a list: union nodes record (node, chosen member index)
 _BUILD_DEPTH = [0]
+NO_KEEP = [False]   # C10 only: let built type objects die when the history drops them
 KEEP: t.List[t.Any] = []   # every built type object stays alive (see DESIGN 3.2)
 
 
@@ -160,7 +161,8 @@ class Node:
                 self._ty = self.build()
             finally:
                 _BUILD_DEPTH[0] -= 1
-            KEEP.append(self._ty)
+            if not NO_KEEP[0]:
+                KEEP.append(self._ty)
         return self._ty
 
     def build(self) -> t.Any:
